@@ -122,10 +122,11 @@ fn extract_class(
                 },
             ),
             Core::VarDef { var, .. } => (i, var.deref().clone()),
+            // not a user identifier, and distinct per statement so that none replaces another
             _ => (
                 i,
                 Core::Id {
-                    lit: String::from("@"),
+                    lit: format!("@{i}"),
                 },
             ),
         };
